@@ -40,7 +40,7 @@ def build(tier: str) -> list[Obligation]:
     thorough = tier == "thorough"
     # --- leaves
     for lf in L:
-        obs.append(obligation(lf, strlen=3, byteslen=3))
+        obs.append(obligation(lf, strlen=3, byteslen=3, timeout=200))
     # ints outside the 4-byte range: decoder int(<bytes>) realises -> hunting only
     for sk in (("P",), ("M",), ("J",), ("L", [("M",), ("P",)])):
         obs.append(obligation(sk, kind="hunt", timeout=300 if thorough else 30))
